@@ -128,6 +128,17 @@ def payload(mod, spec, ld=False):
     return {"k": "none"}
 
 
+def vis_fields(v):
+    """the public sub-fields of the visualization word (-1 where an enumeration getter refuses the bits)"""
+    out = []
+    for name in ("level_mode", "orientation", "oscilloscope_mode", "oscilloscope_size", "bg_transparency", "shadow_opacity"):
+        try:
+            out.append(int(getattr(v, name)))
+        except Exception:
+            out.append(-1)
+    return out
+
+
 def module(mod, spec, ld=False):
     if mod is None:
         return {"kind": "none"}
@@ -136,7 +147,7 @@ def module(mod, spec, ld=False):
     attached = [n for n in names]
     d = {"kind": "module", "mtype": mod.mtype, "name": B(mod.name), "flags": L(mod.flags),
          "fin": si(mod.mod_finetune, "finetune"), "rel": si(mod.mod_relative_note, "relative_note"), "x": si(mod.x, "module.x"), "y": si(mod.y, "module.y"),
-         "layer": si(mod.layer, "layer"), "scale": L(mod.scale), "vis": L(int(mod.visualization)), "color": [int(c) for c in mod.color],
+         "layer": si(mod.layer, "layer"), "scale": L(mod.scale), "vis": L(int(mod.visualization)), "visf": vis_fields(mod.visualization), "color": [int(c) for c in mod.color],
          "midi_in_always": iv(mod.midi_in_always), "midi_in_channel": si(mod.midi_in_channel, "midi_in_channel"),
          "moname": opt_text(mod.midi_out_name), "moch": si(mod.midi_out_channel, "midi_out_channel"), "mobank": si(mod.midi_out_bank, "midi_out_bank"),
          "moprog": si(mod.midi_out_program, "midi_out_program"),
